@@ -956,6 +956,19 @@ twin('c18-fill-float', 'C18', PR + 'xsquared.py', 'XSquared.__init__', 'self.upp
      'self.upperBoundOfFloatVariables.fill(1.0)')
 twin('c18-gkls-comp', 'C18', PR + 'GKLS.py', 'GKLS.__init__', 'self.lowerBoundOfFloatVariables = dimension * [-1]',
      'self.lowerBoundOfFloatVariables = [-1 for _ in range(dimension)]')
+_HILL_RES = '        res: np.double = 0\n        for i in range(hillGen.NUM_HILL_COEFF):'
+fire('c18-hill-half-open-penalty', 'C18', PR + 'hill.py', 'Hill.Calculate', _HILL_RES,
+     '        if not (self.lowerBoundOfFloatVariables[0] <= point.floatVariables[0] < self.upperBoundOfFloatVariables[0]):\n'
+     '            functionValue.value = 1E+100\n            return functionValue\n' + _HILL_RES, 'R18.5')
+fire('c18-hill-open-penalty', 'C18', PR + 'hill.py', 'Hill.Calculate', _HILL_RES,
+     '        if point.floatVariables[0] <= self.lowerBoundOfFloatVariables[0] or point.floatVariables[0] >= self.upperBoundOfFloatVariables[0]:\n'
+     '            functionValue.value = 1E+100\n            return functionValue\n' + _HILL_RES, 'R18.5')
+twin('c18-hill-closed-penalty', 'C18', PR + 'hill.py', 'Hill.Calculate', _HILL_RES,
+     '        if not (self.lowerBoundOfFloatVariables[0] <= point.floatVariables[0] <= self.upperBoundOfFloatVariables[0]):\n'
+     '            functionValue.value = 1E+100\n            return functionValue\n' + _HILL_RES)
+fire('c18-gkls-right-boundary-excluded', 'C18', GK, 'GKLSFunction.CalculateDFunction',
+     'x[i] > self.GKLS_domain_right[i] + GKLSFunction.GKLS_PRECISION)):', 'x[i] >= self.GKLS_domain_right[i])):', 'R18.5',
+     also=[(GK, 'GKLSFunction.CalculateDFunction', 'if ((x[i] < self.GKLS_domain_left[i] - GKLSFunction.GKLS_PRECISION) or (', 'if ((x[i] <= self.GKLS_domain_left[i]) or (')])
 
 # ----------------------------------------------------------------------------- generic behaviour-preserving edits
 # prop '*': every claimed property's checker must stay silent on these
